@@ -251,6 +251,14 @@ def special_trees():
             ir.Multiply(ir.Min(x, y), ir.Max(x, y)), ir.Subtract(ir.IntegerLiteral(0), ir.Min(x, y)),
             ir.Multiply(ir.IntegerLiteral(2147483647), u), ir.Add(ir.FloatLiteral(1e300), u),
             ir.Multiply(ir.IntegerLiteral(3000000000), u), ir.Add(u, ir.IntegerLiteral(4294967296)),
+            # desugared subtraction shapes: x + -1 * (...)
+            ir.Add(u, ir.Multiply(ir.IntegerLiteral(-1), ir.Add(v, u))),
+            ir.Add(u, ir.Multiply(ir.IntegerLiteral(-1), ir.Subtract(v, ir.FloatLiteral(1.5)))),
+            ir.Add(x, ir.Multiply(ir.IntegerLiteral(-1), ir.Add(y, ir.IntegerLiteral(1)))),
+            ir.Add(x, ir.Multiply(ir.IntegerLiteral(-1), ir.Subtract(y, x))),
+            ir.Add(ir.Multiply(ir.IntegerLiteral(-1), u), v), ir.Add(ir.Multiply(ir.IntegerLiteral(-1), x), y),
+            ir.Add(ir.Multiply(ir.IntegerLiteral(-1), u), ir.Multiply(ir.IntegerLiteral(-1), v)),
+            ir.Multiply(ir.IntegerLiteral(-1), ir.Multiply(u, v)), ir.Subtract(u, ir.Multiply(ir.IntegerLiteral(-1), v)),
             ir.Multiply(ir.BooleanToInteger(ir.LessThan(x, y)), ir.IntegerLiteral(2))]
     return out
 
@@ -766,6 +774,32 @@ def confirm_kernel(rec, families):
     return out
 
 
+def confirm_kernel_values(rec):
+    """Replay a value counterexample (exact rationals) on both real back ends: gcc-compiled C text via
+    evaluate_cffi and the LLVM JIT; different values confirm."""
+    from .. import replay
+    from ..request import Request, compile_request, has_broadcast_target
+
+    req = Request.make(rec["request"]["assignment"], rec["request"]["formats"])
+    comp = compile_request(req)
+    out = {"confirmed": False, "where": []}
+    dec = rec["violation"].get("decoded")
+    if dec is None or has_broadcast_target(comp.assignment):
+        return out
+    a = replay.real_run(req, dec, backend="llvm")
+    b = replay.real_run(req, dec, backend="cffi")
+    out["llvm"], out["cffi"] = a.get("status"), b.get("status")
+    if a["status"] == "ok" and b["status"] == "ok":
+        if a["output"]["indices"] != b["output"]["indices"] or a["output"]["vals"] != b["output"]["vals"]:
+            out["confirmed"] = True
+            out["where"].append("evaluate_cffi and evaluate_tensora return different values")
+            out["llvm_vals"], out["cffi_vals"] = a["output"]["vals"], b["output"]["vals"]
+    elif a["status"] != b["status"]:
+        out["confirmed"] = True
+        out["where"].append(f"llvm {a['status']}, cffi {b['status']}")
+    return out
+
+
 def kernel_has_right_nested(fn) -> bool:
     def walk(s):
         if isinstance(s, ir.Block):
@@ -784,6 +818,9 @@ def kernel_has_right_nested(fn) -> bool:
 
 
 KERNEL_REQUESTS_EXTRA = [
+    ("a(i) = b(i) - (c(i) + d(i))", {"a": "s", "b": "s", "c": "s", "d": "d"}),
+    ("a(i) = b(i) - (c(i) - d(i))", {"a": "d", "b": "d", "c": "s", "d": "s"}),
+    ("a(i) = b(i) - c(i)", {"a": "s", "b": "s", "c": "s"}),
     ("a(i) = b(i) * (c(i) * d(i))", {"a": "s", "b": "s", "c": "s", "d": "d"}),
     ("a(i) = b(i) + (c(i) + d(i))", {"a": "d", "b": "d", "c": "s", "d": "d"}),
 ]
@@ -800,7 +837,7 @@ def run(tier):
     procs = min(16, os.cpu_count() or 1)
     ctx = mp.get_context("fork")
     # ---- 1a expression trees
-    plans = [(0, 1), (1, 1), (2, 12 if tier == "quick" else 1)] + ([(3, 60)] if tier != "quick" else [])
+    plans = [(0, 1), (1, 1), (2, 20 if tier == "quick" else 1)] + ([(3, 60)] if tier != "quick" else [])
     tree_stats = {}
     findings = []
     with ctx.Pool(procs) as pool:
@@ -896,6 +933,7 @@ def run(tier):
     refused = 0
     ksamples = []
     kviol = 0
+    structural_only = []
     kernel_over_budget = []
     for r in results:
         key = r["request"]["assignment"] + " | " + ",".join(f"{k}:{v}" for k, v in r["request"]["formats"].items())
@@ -923,14 +961,36 @@ def run(tier):
             if kind == "mismatch" and backend == "c" and isinstance(label, list) and "vals differ" in label and \
                     any(kernel_has_right_nested(fn) for fn in comp.functions.values()):
                 kind = "c-printer-right-nested-rounding"
+            # a structural (uninterpreted fadd/fmul) difference: is it also a difference over the reals?
+            exact = None
+            if kind in ("mismatch", "c-printer-right-nested-rounding") and isinstance(label, list) and "vals differ" in label:
+                t2 = {"assignment": r["request"]["assignment"], "formats": r["request"]["formats"], "dimvec": r["dimvec"],
+                      "N": r["N"], "mode": "c06", "program": r.get("program"), "falg": "pw", "max_paths": 8000, "time_budget": 400}
+                exact = kprog.run_task(t2)
+                if exact["status"] == "violation":
+                    # exact rational values differ: replay the solver's own inputs
+                    from . import keval as _keval
+
+                    conf = confirm_kernel_values(exact)
+                    disagreements_checked += 1
+                    doc = {"property": "C06", "part": "2-kernels", "request": r["request"], "dimvec": r["dimvec"],
+                           "program": r.get("program"), "violation": exact["violation"], "classified": "meaning-differs",
+                           "confirmation": conf}
+                    if conf["confirmed"]:
+                        rep.violation({"name": key, "kind": "kernel-meaning-differs", "backend": backend, "request": key}, doc)
+                    else:
+                        rep.harness_error(f"kernel value counterexample did not reproduce on the real back ends: {key}")
+                    continue
             conf = confirm_kernel(r, None)
             disagreements_checked += 1
             doc = {"property": "C06", "part": "2-kernels", "request": r["request"], "dimvec": r["dimvec"],
                    "program": r.get("program"), "violation": r["violation"], "classified": kind, "confirmation": conf}
             if conf["confirmed"]:
                 rep.violation({"name": key, "kind": kind, "backend": backend, "request": key}, doc)
-            elif kind == "c-printer-right-nested-rounding":
-                pass
+            elif kind == "c-printer-right-nested-rounding" or (exact is not None and exact["status"] == "ok"):
+                # same values over the rationals and no bit difference observed on the real back ends:
+                # a structural candidate only (e.g. x - y printed for x + -1 * y), recorded, not a violation
+                structural_only.append({"request": key, "program": r.get("program")})
             else:
                 rep.harness_error(f"kernel counterexample did not reproduce on the real back ends: {key} {r['violation']['label']}")
         elif len(ksamples) < 4 and r["stats"].get("paths", 0) > 1:
@@ -967,7 +1027,7 @@ def run(tier):
         "expression_trees": tree_stats, "statement_programs": stmt_stats,
         "kernels": {"requests": len(reqs), "generated": len(generated), "refused": refused, **kagg,
                     "solver_s": round(kagg["solver_s"], 2), "solver_counterexamples": kviol,
-                    "tasks": len(tasks), "tasks_completed": len(results), "over_budget": kernel_over_budget[:40],
+                    "tasks": len(tasks), "tasks_completed": len(results), "over_budget": kernel_over_budget[:40], "structural_candidates_without_observed_bit_difference": structural_only[:40],
                     "bounds": {"dense_dimension_max": D, "stored_entries_per_compressed_level": N}},
         "toolchain_checked": tc_checked, "identifier_obligations": ident,
         "unconfirmed_overflow_only_candidates": unconfirmed_overflow_only,
